@@ -589,4 +589,4 @@ package larking
 //@   requires s != nil && s.r != nil && s.codec != nil && s.opts.maxReceiveMessageSize >= 0 && impl(m, "proto.Message")
 //@   witness verifWitnessGRPCRecv
 //@   assert at "if err := s.codec.Unmarshal(b, args); err != nil {" [size-limit C08] len(b) <= s.opts.maxReceiveMessageSize
-//@   ensures [truncated-frame-is-an-error C06] at "return err" #2 err != io.EOF
+//@   ensures [truncated-frame-is-an-error C06] at "return err" #3 err != io.EOF
